@@ -397,6 +397,7 @@ func CountOnPaths(fn *ssa.Function, from ssa.Instruction, count func(ssa.Instruc
 			}
 			mn, mx = s.min, s.max
 		}
+		stopped := false
 		for i := it.i; i < len(it.b.Instrs); i++ {
 			x := it.b.Instrs[i]
 			if count(x) {
@@ -408,6 +409,7 @@ func CountOnPaths(fn *ssa.Function, from ssa.Instruction, count func(ssa.Instruc
 				}
 			}
 			if exit(x) {
+				stopped = true
 				if r, ok := res[x]; ok {
 					if mn < r.Min {
 						r.Min = mn
@@ -419,7 +421,11 @@ func CountOnPaths(fn *ssa.Function, from ssa.Instruction, count func(ssa.Instruc
 				} else {
 					res[x] = MinMax{mn, mx}
 				}
+				break
 			}
+		}
+		if stopped {
+			continue // an exit ends the path (a loop back edge must not be counted into the next iteration)
 		}
 		for _, s := range it.b.Succs {
 			work = append(work, item{s, 0, mn, mx})
